@@ -3,7 +3,7 @@ DESIGN = {
     "TimeOfDay": dict(module="MC_TimeOfDay", quick="MC_TimeOfDay_quick.cfg", thorough="MC_TimeOfDay_thorough.cfg", workers=8),
 }
 PROPS = {
-    "C07": dict(design=["TimeOfDay"], drive="C07",
+    "C07": dict(lemmas=["ClockLaws_C07"], design=["TimeOfDay"], drive="C07",
                 level_text="TimeOfDay.tla defines NaiveTime arithmetic by a time line with one inserted second (not by the code's branches); MC_TimeOfDay checks "
                            "the documented leap-second examples as ASSUMEs and the laws of the statement (sub = add of the negation, antisymmetric difference, carry in whole "
                            "days, plain modular arithmetic without a leap operand) on the lattice of case boundaries; every recorded NaiveTime / NaiveDateTime call "
